@@ -494,6 +494,12 @@ func (e *mvExec) finish() {
 	}
 	e.db.Close()
 	if e.arena != nil {
+		if len(e.arena.BadFrees) > 0 {
+			e.fail("c07-badfree", "allocator misuse: "+strings.Join(e.arena.BadFrees, "; "))
+		}
+		if l := e.arena.Live(); len(l) > 0 {
+			e.fail("c07-leak", fmt.Sprintf("%d blocks (sizes %v) were never returned to the allocator after all handles were closed and Close() returned (%d mallocs, %d frees)", len(l), l, e.arena.Mallocs, e.arena.Frees))
+		}
 		e.arena.Release()
 	}
 }
@@ -684,9 +690,6 @@ func runMvcc(in *mvInput, r *rand.Rand, n int, sink *CaseSink, replay bool, drai
 	kind := fmt.Sprintf("mvcc-cmp%d-mm%v", in.Cmp, in.MM)
 	idx := sink.Add(coq, in, kind, mvNontrivial(e))
 	e.finish()
-	if e.arena != nil && len(e.arena.BadFrees) > 0 {
-		e.fail("c07-badfree", "allocator: "+strings.Join(e.arena.BadFrees, "; "))
-	}
 	if len(e.bad) > 0 {
 		sink.Fail(idx, e.bad[0], e.sig, in)
 	}
@@ -956,6 +959,8 @@ func mvCommand(prop, mode string, rule string) func(a runArgs) error {
 				r = rand.New(rand.NewSource(in.GenSeed))
 			}
 			switch in.Mode {
+			case "backup":
+				runBackup(&in, r, in.GenN, sink, !regen)
 			case "iter":
 				runIter(&in, r, in.GenN, sink, !regen)
 			case "visit":
@@ -983,6 +988,16 @@ func mvCommand(prop, mode string, rule string) func(a runArgs) error {
 				in.Drains = true
 				sink.Begin(in)
 				runMvcc(in, r, n, sink, false, true)
+			case "backup":
+				in.MM = (i/2)%2 == 1
+				sink.Begin(in)
+				runBackup(in, r, n, sink, false)
+			case "alloc":
+				in.Mode = "mvcc"
+				in.MM = true
+				in.Drains = true
+				sink.Begin(in)
+				runMvcc(in, r, n, sink, false, true)
 			case "iso":
 				in.Mode = "mvcc"
 				in.Iso = true
@@ -1002,6 +1017,8 @@ func mvCommand(prop, mode string, rule string) func(a runArgs) error {
 func init() {
 	commands["mvcc"] = mvCommand("C02", "mvcc", "random well-formed histories (10..80 ops, 3..8 keys, 1..3 writers, both comparators, Go-managed and guard-allocator memory): Put/Delete/GetNode/DeleteNode through possibly stale handles/NewSnapshot/Open/Close in random order/GC/Scan/ItemsCount, every open snapshot re-scanned at the end; non-trivial = >=2 snapshots and some key has a dead-but-present version (cross-epoch delete), distinct by Coq term")
 	commands["mvcc-iso"] = mvCommand("C01", "iso", "random well-formed histories as for C02 (both comparators, both memory modes, 1..3 writers, random snapshot close order, real collection workers running) in which EVERY open snapshot is re-scanned after every Put/Delete/DeleteNode/Close/GC/NewSnapshot and compared with the content recorded at its creation; non-trivial = >=2 snapshots and some key has a dead-but-present version")
+	commands["mvcc-backup"] = mvCommand("C05", "backup", "a generated history (both comparators, both memory modes), StoreToDisk of a random open snapshot (often the oldest) with concurrency 1/2/8, the real range pivots fed to the model, LoadFromDisk into a fresh instance with the same configuration; compared: the shard files and recorded checksums byte for byte, the restored content, then a further 15..40-op history on the restored instance against the model started from the restored state; non-trivial = some key has several physical versions and the snapshot holds >=2 items")
+	commands["mvcc-alloc"] = mvCommand("C07", "alloc", "histories as for C06 with user-managed memory on the guard allocator (every block its own mmap, PROT_NONE after free, never reused): after all snapshots are closed and Close() returned, no block may be live, freed twice or unknown")
 	commands["mvcc-gc"] = mvCommand("C06", "gc", "as mvcc, plus forced GC() + wait-for-quiescence points at which the physical level-0 content (item, bornSn, deadSn) is compared with the model after draining its workers; oracle: live/visible versions present, collectable versions gone")
 	commands["mvcc-iter"] = mvCommand("C09", "iter", "a generated history, then an iterator script (SeekFirst/Seek present-absent-below-above/Next/Refresh/SetRefreshRate in {0,1,2,3,7}) on a random open snapshot; non-trivial = the store physically holds versions invisible to that snapshot and the view has >=2 items")
 	commands["mvcc-visit"] = mvCommand("C10", "visit", "a generated history, then Visitor on a random (often the oldest) open snapshot with shards in {1,2,3,4,5,8,16,64}, concurrency in {1,2,8}, the real pivots read through GetRangeSplitItems and fed to the model; 1 in 4 runs injects a callback error (oracle only); non-trivial = some key has several physical versions, view >= 2 items, shards > 1")
